@@ -57,6 +57,9 @@ def run(chk):
                 bad("T!>=T?", b, note="T? is assignable to T")
             if sup(b, "None") != "0":
                 bad("T!>=None", b)
+        if k not in ("none", "empty") and sup("None", l) == "1":
+            # hypothesis `hnull` of MV.C20.tnSup_trans / nameSup_trans: only None may be used where None is expected
+            bad("only-none-below-none", l, note="%s may be used where None is expected" % l)
         if k == "class":
             b = info["base"]
             for a in gen_ty.ANCESTORS[b]:
@@ -158,7 +161,7 @@ def run(chk):
     chk.cov["correspondence"] = {"model": "MV.isSuperset / NameT.union (Model/Ty.lean) on the class table dumped from the real Context", "evaluations": cells, "disagreements": dis}
     chk.cov["end_to_end"] = {"programs": len(progs), "disagreements": e2e_dis,
                              "rule": "every ordered pair of the universe whose two types the grammar can spell, as `def f(a: T) => def x: U := a`"}
-    chk.cov["oracle"] = {"spec": "reflexive, transitive (all triples), Any top, nullable rules, class<=ancestors, unrelated, union<=U iff members, union accepts both, union commutative, order independence",
+    chk.cov["oracle"] = {"spec": "reflexive, transitive (all triples), only None below None (the hypotheses of the lifting theorems nameSup_refl / nameSup_trans, decided on the universe), Any top, nullable rules, class<=ancestors, unrelated, union<=U iff members, union accepts both, union commutative, order independence",
                          "universe": n, "pairs": n * n, "triples_checked": ntri, "law_failures": by_law, "exhaustive": True}
     chk.cov["evaluations"] = n * n
     chk.cov["distinct_nontrivial"] = n * n - n
@@ -168,3 +171,41 @@ def run(chk):
 
 def _canon(name):
     return name
+
+
+def replay(chk, body):
+    """re-evaluate the recorded types on the current tree: the relation between them and, where the grammar can spell
+    them, the end-to-end verdict of `def x: U := a` with a: T"""
+    import random
+    if not chk.build_harness():
+        return 2
+    c = body.get("case") or {}
+    if c.get("kind") != "ty":
+        print(body.get("detail"))
+        return 2
+    U = gen_ty.universe(random.Random(0), True)
+    by_label = {u[0]: u for u in U}
+    # the primed labels of the quick tier's sampled unions exist in the full universe as well
+    ls = [l for l in c.get("types", []) if l in by_label]
+    if not ls:
+        print("types not in the universe:", c.get("types"))
+        return 2
+    names = [by_label[l] for l in ls]
+    usexp = "(" + " ".join(gen_ty.sexp(u[1]) for u in U) + ")"
+    M = matrix(chk.harness("tysup", [("m", hexs(c.get("classes", gen_ty.CLASS_SRC)) + " " + usexp)]).get("m", "MISSING"))
+    idx = {u[0]: i for i, u in enumerate(U)}
+    print("law:", c.get("law"))
+    for a in ls:
+        for b in ls:
+            print("  %-22s >= %-22s : %s" % (a, b, M[idx[a]][idx[b]] if M else "?"))
+    still = None
+    if c.get("law") == "end-to-end" and len(ls) == 2:
+        su, st = gen_ty.syntax(names[0][1]), gen_ty.syntax(names[1][1])
+        prog = c.get("classes", gen_ty.CLASS_SRC) + "def f(a: %s) =>\n    def x: %s := a\n" % (st, su)
+        r = sweep.transpile(chk, [prog], annotate_both=False)[0][0]
+        want = M[idx[ls[0]]][idx[ls[1]]] == "1" or "Any" in ls
+        print(prog)
+        print("checker:", r[0], (r[1][0][:300] if r[0] == "err" and r[1] else ""), "| relation says:", "accept" if want else "reject")
+        still = (r[0] == "ok") != want
+    print("RESULT:", "still fails" if still else ("law re-evaluated above; run ./check C20 for the verdict" if still is None else "holds on the current tree"))
+    return 1 if still else 0
